@@ -54,6 +54,8 @@ func init() {
 		Rules:       []string{"E1"},
 		Run: func(c *Ctx) {
 			RunE1(c, "C18", append(append([]Ob{}, obs...), sharedObs["C18"]...))
+			// the id_token_hint is verified against the provider's own signing keys unless the application configures another key set
+			RunFieldSources(c, "E8.hint.keyset-default", "op", "Provider", "idTokenHinKeySet", "OpenIDKeySet", "an id_token_hint must be verified with the provider's own (storage-backed) key set unless the application explicitly supplies one")
 			RunCallers(c, "E1.logout-validation-table", "op.ValidateEndSessionRequest", []string{"op.EndSession", "op.(*LegacyServer).EndSession"}, "logout entry points")
 		},
 	})
